@@ -971,6 +971,10 @@ impl DiskIO {
         let block = metadata_block(&encoded)?;
         self.write_sectors_sync(FEOX_METADATA_BLOCK, &block)?;
         self.write_sectors_sync(FEOX_METADATA_BACKUP_BLOCK, &block)?;
+        // The signature must be durable before anything else reaches the device: if a
+        // later journal or record write survived a crash and these two did not, the file
+        // would hold data but no valid metadata and could not be reopened.
+        self.flush()?;
         *metadata = next;
         Ok(())
     }
